@@ -5,7 +5,12 @@ use std::net::SocketAddr;
 use std::sync::Arc;
 use tokio::io::{AsyncReadExt, AsyncWriteExt};
 use tokio::net::tcp::{OwnedReadHalf, OwnedWriteHalf};
+#[cfg(not(rustrtc_verif))]
 use tokio::net::{TcpStream, UdpSocket};
+#[cfg(rustrtc_verif)]
+use tokio::net::TcpStream;
+#[cfg(rustrtc_verif)]
+use crate::verif_hooks::UdpSocket;
 use tokio::sync::Mutex;
 use parking_lot::Mutex as SyncMutex;
 use tokio::time::timeout;
